@@ -309,7 +309,10 @@ def prepare_overlay(units):
 
 
 def xcrate_dir(unit, xc):
-    return os.path.join(WORK, "xk", unit.id + "-" + xc.get("name", "x"))
+    # one scratch-crate tree per repository path (like the overlay), so that a check of a patched worktree
+    # (tool/mutcheck.sh) can never interleave with a check of /repo itself
+    h = hashlib.sha1(os.path.abspath(REPO).encode()).hexdigest()[:8]
+    return os.path.join(WORK, "xk-" + h, unit.id + "-" + xc.get("name", "x"))
 
 
 def prepare_xcrates(unit):
